@@ -24,6 +24,8 @@ def fuse_site(repo: Repo):
         if isinstance(loop, ast.For) and norm(loop.iter) == "self.scaffolds" and isinstance(loop.target, ast.Name):
             for n in walk_shallow(loop):
                 if isinstance(n, ast.Call) and isinstance(n.func, ast.Attribute) and n.func.attr == "setdefault" and len(n.args) == 2:
+                    if not (isinstance(n.args[1], ast.Call) and dotted(n.args[1].func) == "Scaffold"):
+                        raise AnalysisError("scaffolds_fused_by_name: fusing is not written as one pass with `<dict>.setdefault(key, Scaffold(...))` (e.g. members are grouped first): form not understood by the fuse rules")
                     return f, loop, loop.target.id, n.args[0], n.args[1], n
     raise AnalysisError("fuse site `<dict>.setdefault(key, Scaffold(...))` not found in scaffolds_fused_by_name")
 
